@@ -66,7 +66,7 @@ class C09(CheckBase):
         for i in range(n):
             kind = rng.choice(['string', 'string', 'value', 'activate', 'unknown', 'context'])
             c = {'id': i, 'c': rng.randrange(ncons), 'kind': kind,
-                 'mode': rng.choice(['real', 'ok', 'ok', 'failed', 'raise', 'slow']),
+                 'mode': rng.choice(['real', 'ok', 'ok', 'failed', 'raise', 'raise_ctrl', 'slow']),
                  'delayed': rng.random() < 0.6, 'resp_delay': rng.choice([0, 0, 0.001, 0.002, 0.002, 0.003, 0.05, 0.3]),
                  'wait': rng.random() < 0.7}
             if kind == 'string':
@@ -139,7 +139,7 @@ class C09(CheckBase):
             if isinstance(arg, str) and arg.count('|') >= 2:
                 return arg.split('|')[-2]
             if isinstance(arg, Decimal):
-                return {1: 'real', 2: 'ok', 3: 'failed', 4: 'raise', 5: 'slow'}.get(int((arg * 10) % 10), 'real')
+                return {1: 'real', 2: 'ok', 3: 'failed', 4: 'raise', 5: 'slow', 6: 'raise_ctrl'}.get(int((arg * 10) % 10), 'real')
             return 'real'
 
         def mk_handler(op, orig):
@@ -156,6 +156,11 @@ class C09(CheckBase):
                 if mode == 'raise':
                     ctx.probe('handler_raise')
                     raise RuntimeError('scripted handler failure')
+                if mode == 'raise_ctrl':
+                    # the text of the exception quotes a raw device reply: characters XML cannot carry
+                    ctx.probe('handler_raise')
+                    ctx.probe('handler_raise_control_chars')
+                    raise RuntimeError('device replied \x00\x1b[31mERR\x07 \ufffe')
                 return ExecuteResult(op.operation_target_handle, mt.InvocationState.FINISHED)
             return handler
 
@@ -189,7 +194,7 @@ class C09(CheckBase):
                     if call['kind'] in ('string', 'unknown'):
                         fut = c.client('Set').set_string(call['h'], f"{call.get('arg', 'x')}|{call['mode']}|{call['id']}")
                     elif call['kind'] == 'value':
-                        code = {'real': 1, 'ok': 2, 'failed': 3, 'raise': 4, 'slow': 5}[call['mode']]
+                        code = {'real': 1, 'ok': 2, 'failed': 3, 'raise': 4, 'slow': 5, 'raise_ctrl': 6}[call['mode']]
                         fut = c.client('Set').set_numeric_value(call['h'], Decimal(f"{call['id']}.{code}"))
                     elif call['kind'] == 'activate':
                         a = mt.Argument()
@@ -322,7 +327,7 @@ class C09(CheckBase):
                 ctx.violation('C09.sequence', f'response={rstate}:reports={"-".join(states)}',
                               f'{call}: transaction {tid}: response state {rstate}, reports in emission order {states}')
             final_state = finals[0] if finals else (rstate if rstate in FINAL else None)
-            if call['mode'] == 'raise' and call['kind'] != 'context':
+            if call['mode'] in ('raise', 'raise_ctrl') and call['kind'] != 'context':
                 info = [e for e in ems if e[0] in FINAL]
                 if final_state != 'Fail' or (info and (info[0][1] is None or not info[0][2])):
                     ctx.violation('C09.fail', f'raise:{final_state}', f'{call}: handler raised but final state is '
